@@ -130,7 +130,7 @@ def main(tier):
         base = ["--no-config", "--color", "never", "-j1", "--sort", "path"]
         modes = [("count", ["-c", "--include-zero"]), ("countm", ["--count-matches", "--include-zero"]), ("only", ["-o", "-n", "--no-heading"]),
                  ("lwith", ["-l"]), ("lwithout", ["--files-without-match"]), ("quiet", ["-q"]), ("json", ["--json"]), ("stats", ["-c", "--stats"]),
-                 ("statsj", ["-c", "--stats"])]
+                 ("statsj", ["-c", "--stats"]), ("statsfwm", ["--files-without-match", "--stats"]), ("statsl", ["-l", "--stats"])]
         jobs, meta = [], []
         for i, r in enumerate(recs):
             pa = rr.opt_flags(r["o"]) + ["-e", rr.render(r["u"])]
@@ -215,6 +215,15 @@ def main(tier):
                     why = {"json_matching_line_without_submatch": bad_empty}
                 elif exact and not r["o"]["inv"] and sub != wantm:
                     why = {"json_submatches": sub, "expected": wantm}
+            elif name in ("statsfwm", "statsl"):
+                # the totals of --stats do not depend on which summary mode prints the files
+                txt = so.decode("latin1")
+                mm = re.search(r"(\d+) files contained matches", txt)
+                ms = re.search(r"(\d+) files searched", txt)
+                got = {"files contained matches": int(mm.group(1)) if mm else None, "files searched": int(ms.group(1)) if ms else None}
+                want = {"files contained matches": sum(1 for v in exp.values() if v["count"]), "files searched": NF}
+                if got != want:
+                    why = {"stats": got, "expected": want, "mode": name}
             elif name == "stats":
                 txt = so.decode("latin1")
                 def num(pat):
